@@ -227,7 +227,7 @@ def check(ctx):
     ctx.paths("R11-d", na, [("loop", [lambda frag, node: node.kind == "for_iter" and id(node.node) in ids2]), ("clear", "self._waiters.clear()")],
               step_a, frozenset(), lambda k, st, f: ("notify_all leaves woken waiters in the queue" if k == "return" and "clear" not in st else None),
               instance="set all, then clear")
-    queue_ends(ctx, "R11-d", "Condition", "_waiters", SYNC, min_put=1, min_take=2)
+    queue_ends(ctx, "R11-d", "Condition", "_waiters", SYNC)
 
     # ---- R11-e wait protocol
     w = C["wait"]
